@@ -29,7 +29,9 @@ pub fn strategy() -> BoxedStrategy<Case> {
         1 => proptest::sample::select(vec![json!("https://www.w3.org/2018/credentials/v1"), json!("did:example:123"), json!("urn:uuid:6c5c0a49-b589-431d-bae7-219122a9ec2c"), json!("http://schema.org/"), json!("2012-04-23T18:25:43Z"), json!("true"), json!({"@id": "ex:sd"}), json!(true), json!(0)]),
         1 => Just(json!(null)),
     ];
-    (issue_spec_strategy(ClaimCfg::LIGHT, HONEST_PATHS, Just(HolderKey::None).boxed()), value).prop_map(|(issue, value)| C13Case { issue, value }).boxed()
+    let normal = (issue_spec_strategy(ClaimCfg::LIGHT, HONEST_PATHS, Just(HolderKey::None).boxed()), value.clone()).prop_map(|(issue, value)| C13Case { issue, value, huge: 0 });
+    let huge = (issue_spec_strategy(ClaimCfg::LIGHT, HONEST_PATHS, Just(HolderKey::None).boxed()), value, proptest::sample::select(vec![65_537u32, 65_600, 70_001])).prop_map(|(issue, value, huge)| C13Case { issue, value, huge });
+    prop_oneof![400 => normal, 1 => huge].boxed()
 }
 
 pub fn plan(tier: Tier) -> Plan<Case> {
